@@ -14,7 +14,7 @@ def run_config(chk, tier, cfgname):
     chk.not_decided += ["'is_dead is true exactly for the unreachable objects' on concrete graphs (needs exact user "
                         "traces + the global theorem)"]
     for t in ("gc_is_dead", "weak_is_dead", "resurrect", "weak_resurrect", "gray_remaining"):
-        typestate.apply(chk, t + "-table", t, aspects=("safety",))
+        typestate.apply(chk, t + "-table", t, aspects=("safety", "reporting"))
     common.protocol_rows(chk, prog, "marked-arena-protocol", ["mark_debt", "finish_marking", "start_sweeping"], aspects=("handout",))
     prog.edges()
     # Finalization only for MarkedArena holders
